@@ -55,9 +55,15 @@ SockAddr::SockAddr(const DomainSockPath &path)
     bzero(&addr_, sizeof(addr_));
 
     struct sockaddr_un *p_addr = (struct sockaddr_un *)&addr_;
-    p_addr->sun_family = AF_LOCAL;
 
     auto &sock_path = path.get();
+    //! a path that does not fit into sockaddr_un::sun_path must not be copied (it would overrun addr_)
+    if (sock_path.size() > sizeof(p_addr->sun_path)) {
+        LogWarn("domain sock path too long, size:%u", static_cast<unsigned>(sock_path.size()));
+        return;
+    }
+
+    p_addr->sun_family = AF_LOCAL;
     //!NOTE: sock_path 字串中可能存在\0字符，所以不能当普通字串处理
     ::memcpy(p_addr->sun_path, sock_path.data(), sock_path.size());
     len_ = kSockAddrUnHeadSize + sock_path.size();
